@@ -96,13 +96,14 @@ class C08(Check):
     rule = ('cases = every table over 1 column (7 declared types x every '
             'ordered tuple of 0..3 values from the per-type alphabet incl. '
             'NULL x 4 column names) and 2 columns (49 ordered type pairs x '
-            'every table of 0..2 (quick) / 0..3 (thorough) rows over reduced '
-            'alphabets x name pairs) x rex off/on (thorough adds 4-row '
-            'columns and 14 further strings); per case every '
-            'perturbation of the statement\'s menu that the model says '
-            'breaks a discovered constraint; non-trivial = discovery '
-            'produced a constraint besides type and at least one must-fail '
-            'perturbation was executed, or tdda raised')
+            'every table of 0..2 rows (quick; 0..1 for the case-variant '
+            'name pair) / 0..3 rows (thorough) over reduced alphabets x name '
+            'pairs) x rex off/on; thorough adds 4-row columns and 14 further '
+            'strings; per case every perturbation of the statement\'s menu '
+            'that the model says breaks a discovered constraint; '
+            'non-trivial = discovery produced a constraint besides type and '
+            'at least one must-fail perturbation was executed, or tdda '
+            'raised')
     assumptions = [
         'SQLite only (in-memory database through tdda\'s own connector); '
         'table name fixed to "t"; column names never contain a double quote '
@@ -117,9 +118,13 @@ class C08(Check):
         'BOOLEAN columns; a string that an expression matches only up to a '
         'final newline or only unanchored; length perturbations on which '
         'code-point and UTF-8 byte counts disagree',
-        'bounds: <= 3 rows, <= 2 columns, the listed alphabets; thorough '
-        'adds 14 further strings (rexpy defects F04/F05 of C03 may surface '
-        'through the rex closure there)',
+        'bounds: <= 3 rows (thorough: 4 for one column), <= 2 columns, the '
+        'listed alphabets; thorough adds 14 further strings (rexpy defect '
+        'F04 of C03 surfaces through the rex closure there: examples "-" '
+        'and "^" give ^[^-]$)',
+        'violation signatures name the features whose removal makes the '
+        'symptom vanish (re-execution of reduced cases), not the exception '
+        'text',
     ]
 
     def hashseeds(self, tier, verif_seed):
@@ -174,6 +179,8 @@ class C08(Check):
                     for n in rng:
                         for rows in itertools.product(rowopts, repeat=n):
                             for (na, nb) in pairs:
+                                if not thorough and n == 2 and na != 'c':
+                                    continue   # quick: (c, my col) only
                                 for rex in (False, True):
                                     yield {'cols': [[na, da], [nb, db_]],
                                            'rows': [list(r) for r in rows],
